@@ -40,6 +40,23 @@ void harness(void) {
 	int final_ok = (res == KSI_OK && rc == KSI_VER_RES_OK);
 	CHECK(VERIF_hm_overflow == 0, "C01.He hash-model log large enough");
 
+	/* The verdict may have been reached before the aggregation chain or the calendar chain was hashed.  To state ALL conditions,
+	 * let the (memoising) public aggregators finish what the run left undone: a digest computed by the run is reused, a missing
+	 * one is computed now.  Hash-log entry 0 is then the chain's step (if the chain is computable), the next one the calendar step. */
+	const unsigned nrec_run = VERIF_hm_nrec;
+	{
+		int lvl = 0; KSI_DataHash *h = NULL;
+		int ra = KSI_AggregationHashChain_aggregate(sb_chain[0], 0, &lvl, &h);
+		KSI_DataHash_free(h); h = NULL;
+		int rcal = KSI_CalendarHashChain_aggregate(sb_cal, &h);
+		KSI_DataHash_free(h);
+		ASSUME(rcal == KSI_OK);
+		(void)ra;
+	}
+	const int chain_computable = (SB.ch[0].link[0].lc <= 254);
+	const unsigned cal_rec = chain_computable ? 1 : 0;
+	CHECK(VERIF_hm_nrec == cal_rec + 1, "C01.He every chain step is hashed exactly once (run + completion)");
+
 	/* ---- the conditions of this shape ---- */
 	const struct sb_hash_v *S = &SB.ch[0].in, *D = &SB.doc;
 	const struct sb_link_v *lk = &SB.ch[0].link[0];
@@ -48,23 +65,23 @@ void harness(void) {
 	int st[15]; int code[15]; unsigned n = 0;
 #define COND(state, c) do { st[n] = (state); code[n] = (c); n++; } while (0)
 	COND(D->imp[0] == S->imp[0] ? HOLDS : VIOLATED, KSI_VER_ERR_GEN_4);
-	COND(sb_hash_eq(D, S) ? HOLDS : VIOLATED, KSI_VER_ERR_GEN_1);
+	COND((D->imp[0] != S->imp[0] || sb_hash_eq(D, S)) ? HOLDS : VIOLATED, KSI_VER_ERR_GEN_1);      /* same algorithm, other digest */
 	COND(L > 255 ? UNCOMPUTABLE : ((L == 0 || L <= lk->lc) ? HOLDS : VIOLATED), KSI_VER_ERR_GEN_3);
 	COND((S->imp[0] == 0 && T >= SHA1_DEPRECATED_FROM) ? VIOLATED : HOLDS, KSI_VER_ERR_INT_13);
 	COND((SB.ch[0].aggrTime >= SHA1_DEPRECATED_FROM) ? VIOLATED : HOLDS, KSI_VER_ERR_INT_15);       /* the chain is a SHA-1 chain */
 	COND(lk->lc > 254 ? UNCOMPUTABLE : HOLDS, KSI_VER_ERR_INT_1);                                    /* level = correction + 1 must fit a byte */
 	COND(SB.ch[0].idx[0] == 2ull + (lk->isLeft ? 1 : 0) ? HOLDS : VIOLATED, KSI_VER_ERR_INT_10);
-	/* aggregation root = imprint (SHA-1, digest of hash computation 0) - when it was computed */
+	/* aggregation root = imprint (SHA-1, digest of the chain's hash computation) */
 	int root_eq = (SB.cal.in.len == 21 && SB.cal.in.imp[0] == 0);
 	for (unsigned i = 0; i < 20; i++) if (SB.cal.in.imp[1 + i] != VERIF_hm_rec[0].digest[i]) root_eq = 0;
-	COND(root_eq ? HOLDS : VIOLATED, KSI_VER_ERR_INT_3);
+	COND(!chain_computable ? HOLDS /* counted once, as INT-01 above */ : (root_eq ? HOLDS : VIOLATED), KSI_VER_ERR_INT_3);
 	COND(T == SB.ch[0].aggrTime ? HOLDS : VIOLATED, KSI_VER_ERR_INT_4);
 	/* one right link: the calendar tree of p must consist of a complete left subtree and the single leaf p, i.e. p is a power of two */
 	int p_pow2 = (p != 0 && (p & (p - 1)) == 0);
 	COND(!p_pow2 ? UNCOMPUTABLE : (T == p ? HOLDS : VIOLATED), KSI_VER_ERR_INT_5);
-	/* calendar root = imprint (algorithm of the right operand = calendar input hash, digest of hash computation 1) */
+	/* calendar root = imprint (algorithm of the right operand = calendar input hash, digest of the calendar hash computation) */
 	int pub_eq = (SB.pub.imp.len == 21 && SB.pub.imp.imp[0] == SB.cal.in.imp[0]);
-	for (unsigned i = 0; i < 20; i++) if (SB.pub.imp.imp[1 + i] != VERIF_hm_rec[1].digest[i]) pub_eq = 0;
+	for (unsigned i = 0; i < 20; i++) if (SB.pub.imp.imp[1 + i] != VERIF_hm_rec[cal_rec].digest[i]) pub_eq = 0;
 	COND(pub_eq ? HOLDS : VIOLATED, KSI_VER_ERR_INT_9);
 	COND(SB.pub.time == p ? HOLDS : VIOLATED, KSI_VER_ERR_INT_7);
 
@@ -73,27 +90,17 @@ void harness(void) {
 		if (st[i] == VIOLATED) { n_viol++; code_viol = code[i]; if (ec == code[i]) fail_code_matches = 1; }
 		if (st[i] == UNCOMPUTABLE) n_unc++;
 	}
-	/* conditions 7 (INT-03) and 10 (INT-09) speak about hash computations that only exist if everything before them went through;
-	 * if the run stopped earlier, their log entries are not meaningful - restrict the claims accordingly */
-	int hashes_done = (VERIF_hm_nrec == 2);
-	{	/* ... and the hash computations do take place as soon as everything that is evaluated before them holds */
-		int pre0 = 1, pre1 = 1;
-		for (unsigned i = 0; i <= 6; i++) if (st[i] != HOLDS) pre0 = 0;
-		for (unsigned i = 0; i <= 9; i++) if (st[i] != HOLDS) pre1 = 0;
-		if (pre0) CHECK(VERIF_hm_nrec >= 1, "C01.He the aggregation chain is recomputed when all earlier conditions hold");
-		if (pre1) CHECK(VERIF_hm_nrec == 2, "C01.He the calendar chain is recomputed when all earlier conditions hold");
-	}
-	if (final_ok) CHECK(hashes_done, "C01.He an OK verdict implies that the aggregation chain and the calendar chain were recomputed");
+	if (final_ok) CHECK(nrec_run == 2, "C01.He an OK verdict implies that the run itself recomputed the aggregation chain and the calendar chain");
 	if (final_ok) CHECK(n_viol == 0 && n_unc == 0 && ec == KSI_VER_ERR_NONE, "C01.He end to end: OK only if every condition of the shape holds");
-	if (n_viol == 0 && n_unc == 0 && hashes_done) CHECK(final_ok, "C01.He end to end: every condition holds implies OK");
-	if (n_viol == 1 && n_unc == 0 && hashes_done) CHECK(res == KSI_OK && rc == KSI_VER_RES_FAIL && ec == code_viol, "C01.He end to end: exactly one violated condition yields FAIL with its documented code");
-	if (res == KSI_OK && rc == KSI_VER_RES_FAIL && hashes_done) CHECK(fail_code_matches, "C01.He end to end: a FAIL verdict carries the code of a violated condition");
+	if (n_viol == 0 && n_unc == 0) CHECK(final_ok, "C01.He end to end: every condition holds implies OK");
+	if (n_viol == 1 && n_unc == 0) CHECK(res == KSI_OK && rc == KSI_VER_RES_FAIL && ec == code_viol, "C01.He end to end: exactly one violated condition yields FAIL with its documented code");
+	if (res == KSI_OK && rc == KSI_VER_RES_FAIL) CHECK(fail_code_matches, "C01.He end to end: a FAIL verdict carries the code of a violated condition");
 	if (n_unc > 0) CHECK(!final_ok, "C01.He end to end: an uncomputable condition never yields OK");
 	if (L > 255) CHECK(res == KSI_INVALID_VERIFICATION_INPUT || (res == KSI_OK && rc == KSI_VER_RES_FAIL), "C01.He end to end: a level above 255 is refused unless the document hash already failed");
 
 	if (final_ok) WITNESS_POINT("end to end: consistent signature verifies");
 	if (final_ok && L == 7 && lk->lc == 7) WITNESS_POINT("end to end: verifies at level 7");
-	if (n_viol == 1 && n_unc == 0 && hashes_done && st[11] == VIOLATED) WITNESS_POINT("end to end: only the publication time is wrong");
-	if (n_viol == 1 && n_unc == 0 && hashes_done && st[6] == VIOLATED) WITNESS_POINT("end to end: only the chain index is wrong");
+	if (n_viol == 1 && n_unc == 0 && st[11] == VIOLATED) WITNESS_POINT("end to end: only the publication time is wrong");
+	if (n_viol == 1 && n_unc == 0 && st[6] == VIOLATED) WITNESS_POINT("end to end: only the chain index is wrong");
 	if (n_viol == 0 && n_unc == 1 && st[9] == UNCOMPUTABLE) WITNESS_POINT("end to end: publication time is no power of two - shape not computable");
 }
